@@ -10,7 +10,7 @@ from .. import effects
 from ...utils.bitfun import wrap_negative
 from ..token import Token, u8, u16, u32, u64, bit_range, bit
 from .registers import rcx, al, cl, rax, rdx, rbp, eax, edx, ecx, cx, dx
-from .registers import rsp, ax, Register32
+from .registers import rsp, rsi, rdi, ax, Register32
 from .registers import Register64, Register16, Register8
 
 isa = Isa()
@@ -1368,6 +1368,8 @@ class Rep(X86Instruction):
 class Movsb(X86Instruction):
     """Move data from string to string"""
 
+    implicit_uses = (rsi, rdi)
+    implicit_defs = (rsi, rdi)
     syntax = Syntax(["movsb"])
 
     def encode(self):
